@@ -109,7 +109,7 @@ def admissible(m, P):
 # ---- state ---------------------------------------------------------------------------------------------------
 
 class St:
-    __slots__ = ('s', 'm', 'views', 'snaps', 'last', 'nontriv', 'IDs', 'sysname')
+    __slots__ = ('s', 'm', 'views', 'snaps', 'last', 'nontriv', 'IDs', 'sysname', 'scope', 'pending')
 
 
 def observe(s):
@@ -138,8 +138,22 @@ def build_stream(desc, T=T0, P=P0):
         if items: kw[p] = items
     return tmo.MultiStream(None, phases=tuple(phases), T=T, P=P, thermo=th, **kw)
 
+def build_from_streams(desc):
+    """desc = ('FS', 'phases in the order the streams are passed', (occupied phases...)): MultiStream.from_streams of single-phase
+    streams (stream k at T0 + 10 k, P0 + 1000 k: the first one's T and P become the common ones).  Returns (multistream, {phase: stream})."""
+    tmo = fx.tmo(); th = _thermo(); IDs = th.chemicals.IDs
+    _, order, occ = desc
+    streams = []
+    for k, p in enumerate(order):
+        kw = {ID: v for ID, v in zip(IDs, PATTERN[p]) if v} if p in occ else {}
+        streams.append(tmo.Stream(None, phase=p, T=T0 + 10.0 * k, P=P0 + 1000.0 * k, thermo=th, **kw))
+    return tmo.MultiStream.from_streams(streams, thermo=th), dict(zip(order, streams))
+
 def model_of(desc, T=T0, P=P0):
     n = 2
+    if desc[0] == 'FS':
+        phases = ptuple(desc[1])
+        return Model('M', phases, {p: list(PATTERN[p]) if p in desc[2] else [0.0] * n for p in phases}, T, P)
     if desc[0] == 'S':
         return Model('S', (desc[1],), {desc[1]: list(map(float, desc[2]))}, T, P)
     phases = ptuple(desc[1])
@@ -159,7 +173,7 @@ class C12(System):
 
     def __init__(self, name, universe, writes, cap, depth_q, depth_t, configs='seeds', max_views=2, max_snaps=0,
                  T_writes=(350.0,), P_writes=(), accessors=True, copy_like=False, init_snap=False,
-                 tcap_q=None, tcap_t=None, state_cap=3_000_000, first_ops=None, quick_configs=None):
+                 tcap_q=None, tcap_t=None, state_cap=3_000_000, first_ops=None, quick_configs=None, init_scope=False):
         self.name = name
         self.U = tuple(universe)
         self.writes = tuple(writes)          # ((chemical index, value), ...)
@@ -176,6 +190,8 @@ class C12(System):
         self.state_cap = state_cap
         self.first_ops = first_ops          # restrict the FIRST action of every history to these operations
         self.quick_configs = quick_configs
+        #: actions temp_new (scope = stream.temporary(T=...)) and temp_use (`with scope:`): a use must restore the state AT ENTRY
+        self.init_scope = init_scope
 
     def warm(self):
         fx.tmo(); _thermo()
@@ -207,6 +223,13 @@ class C12(System):
                         cfgs.append(('M', ''.join(ptuple(Q)), pf))
                         if len(Q) == 1:
                             cfgs.append(('S', Q[0], PATTERN[Q[0]] if ne else (0.0, 0.0)))
+        if self.cfgmode == 'fs':
+            # MultiStream.from_streams: every ORDER in which 2 or 3 single-phase streams of distinct phases can be passed
+            cfgs = []
+            for k in (2, 3):
+                for order in itertools.permutations(U, k):
+                    for occ in (order, order[:1], order[-1:], ()):
+                        cfgs.append(('FS', ''.join(order), tuple(occ)))
         if self.cfgmode == 'pairs':
             # (current stream, stream whose saved data is restored): every pair of grid configurations
             cfgs = [('pair', a, b) for a in cfgs for b in cfgs]
@@ -219,9 +242,13 @@ class C12(System):
         st = St()
         pair = None
         if config[0] == 'pair': _, config, pair = config
-        st.s = build_stream(config)
-        st.m = model_of(config)
         st.views = {}           # phase -> [object, epoch]   epoch: 'current' | 'old' (taken before the last phase-set change)
+        if config[0] == 'FS':
+            st.s, given = build_from_streams(config)
+            st.views = {p: [v, 'current'] for p, v in given.items()}      # the streams that were passed ARE the phase views
+        else:
+            st.s = build_stream(config)
+        st.m = model_of(config)
         st.snaps = []           # [(StreamData, Model)]
         st.last = None; st.nontriv = False
         st.IDs = _thermo().chemicals.IDs
@@ -229,8 +256,14 @@ class C12(System):
             st.snaps.append((st.s.get_data(), st.m.copy()))
         if pair is not None:
             st.snaps.append((build_stream(pair).get_data(), model_of(pair)))
-        self._probe_views(st)
-        for v in self._mass_views(st): raise v
+        st.scope = None          # a `stream.temporary(T=...)` scope, created by the action temp_new
+        # oracles that must run inside build (they create memo entries); what they find is reported by invariants() for the initial state
+        st.pending = []
+        try:
+            self._probe_views(st)
+            st.pending.extend(self._mass_views(st))
+        except Violation as v:
+            st.pending.append(v)
         return st
 
     # ---- canon -----------------------------------------------------------------------------------------------
@@ -256,7 +289,11 @@ class C12(System):
                              for p, (v, e) in st.views.items()))
         snaps = tuple((d._phases if isinstance(d._phases, tuple) else tuple(d._phases), fx.sparse_digest(d._imol.data), d._T, d._P, m.key())
                       for d, m in st.snaps)
-        return (core, sub, caches, views, snaps, st.m.key())
+        scope = None
+        if st.scope is not None:
+            d = st.scope.data
+            scope = (tuple(d._phases), fx.sparse_digest(d._imol.data), d._T, d._P)
+        return (core, sub, caches, views, snaps, st.m.key(), scope)
 
     # ---- actions ------------------------------------------------------------------------------------------------
     def actions(self, st):
@@ -291,6 +328,7 @@ class C12(System):
         for i in range(len(st.snaps)):
             acts.append(('set_data', i))
             if self.copy_like: acts.append(('copy_like', i))
+        if self.init_scope: acts.append(('temp_use',) if st.scope is not None else ('temp_new',))
         if self.first_ops is not None and st.last is None:
             acts = [a for a in acts if a[0] in self.first_ops]
         return acts
@@ -559,6 +597,30 @@ class C12(System):
             st.nontriv = bool(st.views)
             return (op, who != 'parent', bool(st.views))
 
+        if op == 'temp_new':
+            st.scope = run(lambda: s.temporary(T=T_ALPH[1]), op)
+            obs = observe(s)
+            self._check_exact(st, before, obs, op)
+            return (op, before.kind)
+
+        if op == 'temp_use':
+            # `with scope:` (scope = stream.temporary(T=350) created by temp_new): inside, T is 350 and a flow is overwritten;
+            # on exit flows, phases, T and P must be what they were AT ENTRY (whatever happened since the scope was created / last used)
+            p0 = before.phases[0]
+            key = IDs[0] if before.kind == 'S' else (p0, IDs[0])
+            def f():
+                with st.scope as t:
+                    if t is not s: raise Violation('scope-stream', 'the scope yields another object than the stream')
+                    s.imol[key] = before.rows[p0][0] + 1.0
+            run(f, op)
+            obs = observe(s)
+            exp = before.copy()
+            if len(exp.phases) == 1 and obs.kind in ('S', 'M'): exp.kind = obs.kind
+            self._check_exact(st, exp, obs, op)
+            st.nontriv = True
+            self._adopt(st, exp)
+            return (op, before.kind)
+
         if op == 'get_data':
             d = run(lambda: s.get_data(), op)
             st.snaps.append((d, before.copy()))
@@ -598,6 +660,7 @@ class C12(System):
     # ---- state oracle --------------------------------------------------------------------------------------------
     def invariants(self, st):
         out = []
+        if st.last is None and st.pending: return list(st.pending)
         tmo = fx.tmo()
         s = st.s; m = st.m
         op = st.last[0] if st.last else 'init'
@@ -658,21 +721,23 @@ W0 = ((0, 0.0), (0, 1.0))
 
 SYSTEMS = [
     # depth 1/2 (3): every phase set x every occupancy pattern as the initial flow distribution, all operations incl. one snapshot
-    C12('c12.grid', ALL, W1, 8.0, 2, 3, configs='grid', max_views=2, max_snaps=1, P_writes=(202650.0,), copy_like=True, tcap_t=400),
+    C12('c12.grid', ALL, W1, 8.0, 2, 3, configs='grid', max_views=2, max_snaps=1, P_writes=(202650.0,), copy_like=True, tcap_t=400, init_scope=True),
+    # MultiStream.from_streams with the streams passed in every order; the passed streams are held as the phase views
+    C12('c12.from_streams', ALL, W1, 8.0, 1, 2, configs='fs', max_views=3, max_snaps=1, tcap_t=200),
     # CLOSURE over three-phase universes (all histories of ANY length): one written chemical with values {0,1} (the second chemical
     # only moves with its row), entry cap 2, one held view, restore of the initial snapshot; quick = depth-5 prefix of the same space
     C12('c12.closure.gls', ('g', 'l', 's'), W0, 2.0, 4, None, max_views=1, init_snap=True, T_writes=(), tcap_t=180),
     C12('c12.closure.lLg', ('l', 'L', 'g'), W0, 2.0, 4, None, max_views=1, init_snap=True, T_writes=(), tcap_t=180),
     C12('c12.closure.sSl', ('s', 'S', 'l'), W0, 2.0, 4, None, max_views=1, init_snap=True, T_writes=(), tcap_t=180),
     # the same universes with two written chemicals, T writes, two views, cap 3: depth-bounded
-    C12('c12.deep.lLg', ('l', 'L', 'g'), W1, 3.0, 3, 6, max_views=2, init_snap=True, tcap_t=60),
-    C12('c12.deep.sSl', ('s', 'S', 'l'), W1, 3.0, 3, 6, max_views=2, init_snap=True, tcap_t=120),
-    C12('c12.deep.gls', ('g', 'l', 's'), W1, 3.0, 3, 6, max_views=2, init_snap=True, tcap_t=60),
+    C12('c12.deep.lLg', ('l', 'L', 'g'), W1, 3.0, 3, 6, max_views=2, init_snap=True, tcap_t=60, init_scope=True),
+    C12('c12.deep.sSl', ('s', 'S', 'l'), W1, 3.0, 3, 6, max_views=2, init_snap=True, tcap_t=120, init_scope=True),
+    C12('c12.deep.gls', ('g', 'l', 's'), W1, 3.0, 3, 6, max_views=2, init_snap=True, tcap_t=60, init_scope=True),
     # restore / copy a saved state onto every other state: all ordered pairs (current, saved) of grid configurations
     C12('c12.restore4', ('g', 'l', 's', 'L'), W1, 8.0, 1, 2, configs='pairs', max_views=1, max_snaps=0, copy_like=True,
         first_ops=('set_data', 'copy_like'), tcap_t=100),
     C12('c12.restore5', ALL, W1, 8.0, 1, 1, configs='pairs', max_views=0, max_snaps=0, copy_like=True,
         first_ops=('set_data', 'copy_like'), quick_configs=2000, tcap_t=100),
     # the whole universe, depth-bounded, two snapshots
-    C12('c12.snap', ALL, W1, 8.0, 3, 5, max_views=1, max_snaps=2, copy_like=True, T_writes=(350.0,), tcap_t=150),
+    C12('c12.snap', ALL, W1, 8.0, 3, 5, max_views=1, max_snaps=2, copy_like=True, T_writes=(350.0,), tcap_t=150, init_scope=True),
 ]
